@@ -1,7 +1,7 @@
 (* C08 -- property theorems only.  Each is closed by [exact] of a lemma of
    Proofs.v and followed by Print Assumptions. *)
 From Coq Require Import ZArith List Bool Arith.
-From Verif.C08 Require Import Model Proofs.
+From Verif.C08 Require Import Model Proofs CoreSym Update Formats.
 Import ListNotations.
 
 (* chunk_tasks (assemble_tools_cy.pyx:387): for every task list and every requested
@@ -105,13 +105,98 @@ Theorem prange_schedule_independent : forall (V : Type) (nc0 nc1 : nat) (B : lis
 Proof. exact prange_schedule_independent_l. Qed.
 Print Assumptions prange_schedule_independent.
 
-(* NOT PROVED: symmetric_equals_full_core --
-     forall V vzero nc B lv, (every level pattern duplicate-free, transp_ok) ->
-       (forall i j row col, row < nc -> col < nc -> B j i (col*nc+row) = B i j (row*nc+col)) ->
-       core_entries vzero nc nc B true lv = core_entries vzero nc nc B false lv.
-   Missing: the induction over the kernel's nested loops showing that every index tuple with a
-   lexicographically positive diagonal vector is written exactly by the mirror copy of its transposed
-   tuple (coverage) -- the skip rule and the mirrored store are covered instead by the exact
-   correspondence run, where core_entries .. true .. is compared with the implementation's array for
-   symmetric AND unsymmetric forms in 1D, 2D and 3D.  The scalar and BSR paths are proved
-   (symmetric_equals_full); the write-set side of the kernel is proved (prange_schedule_independent). *)
+(* generic_assemble_core_vec_{1,2,3}d with symmetric=True (cython.py:1062-1140): skip rule
+   `diag_0 = .. = diag_{k-1} = 0 and diag_k > 0`, entry_impl on the remaining index tuples, mirrored
+   store of the transposed component block into transp[mu].  For ANY number of levels, square
+   nc x nc component blocks, duplicate-free level patterns with correct transp arrays and an entry
+   function with B(j,i)[col,row] = B(i,j)[row,col], the `entries` array after the run equals the
+   array of the unsymmetric run, element by element (coverage: every tuple with a lexicographically
+   positive diagonal vector is filled by the mirror copy of its transposed tuple, all others directly;
+   all stores to one location carry the same value). *)
+Theorem symmetric_equals_full_core : forall (V : Type) (nc : nat) (B : list Z -> list Z -> nat -> V)
+    (lvs : list level),
+  (forall i j row col, row < nc -> col < nc -> B j i (col * nc + row) = B i j (row * nc + col)) ->
+  forall vzero : V, Forall level_ok lvs ->
+  core_entries vzero nc nc B true lvs = core_entries vzero nc nc B false lvs.
+Proof. exact symmetric_equals_full_core_l. Qed.
+Print Assumptions symmetric_equals_full_core.
+
+(* ---- update()/update_params() versus fresh construction (abstract slot store, Update.v) ---- *)
+
+(* If the layout keeps the arrays apart and the generated update(n) refreshes exactly the arrays
+   fed by input n (refresh_complete: THE generator's obligation, checked on every run against the
+   generated text of every compiled corpus form), then update(n = x) after __init__(env) leaves
+   the store of __init__(env[n := x]), slot by slot, for every derived-quantity function D. *)
+Theorem update_equals_fresh : forall (X V : Type) (D : nat -> X -> nat -> V) arrs refreshed n,
+  disjoint_layout arrs -> refresh_complete arrs refreshed n ->
+  forall (env : nat -> X) (x : X) (st0 : nat -> V) s,
+  update D refreshed x (init D arrs env st0) s = init D arrs (override env n x) st0 s.
+Proof. exact update_equals_fresh_l. Qed.
+Print Assumptions update_equals_fresh.
+
+(* the same for every history of updates of one assembler object (reuse) *)
+Theorem update_history_equals_fresh : forall (X V : Type) (D : nat -> X -> nat -> V) arrs
+    (refreshed : nat -> list arr) ups,
+  disjoint_layout arrs ->
+  (forall u, In u ups -> refresh_complete arrs (refreshed (fst u)) (fst u)) ->
+  forall (env : nat -> X) (st0 : nat -> V) s,
+  run_updates D refreshed ups (init D arrs env st0) s = init D arrs (env_after env ups) st0 s.
+Proof. exact update_history_equals_fresh_l. Qed.
+Print Assumptions update_history_equals_fresh.
+
+(* updating an input to the value it already has changes no slot *)
+Theorem reuse_idempotent : forall (X V : Type) (D : nat -> X -> nat -> V) arrs refreshed n,
+  disjoint_layout arrs -> refresh_complete arrs refreshed n ->
+  forall (env : nat -> X) (st0 : nat -> V) s,
+  update D refreshed (env n) (init D arrs env st0) s = init D arrs env st0 s.
+Proof. exact reuse_idempotent_l. Qed.
+Print Assumptions reuse_idempotent.
+
+(* soundness of the executable obligation evaluated on the tables read off the generated code *)
+Theorem update_checked_equals_fresh : forall (X V : Type) (D : nat -> X -> nat -> V) arrs upd temp_srcs,
+  update_okb arrs upd temp_srcs = true ->
+  forall n refreshed, In (n, refreshed) upd ->
+  forall (env : nat -> X) (x : X) (st0 : nat -> V) s,
+  update D refreshed x (init D arrs env st0) s = init D arrs (override env n x) st0 s.
+Proof. exact update_checked_equals_fresh_l. Qed.
+Print Assumptions update_checked_equals_fresh.
+
+(* the obligation is necessary: an array of the layout that update() does not refresh keeps the
+   quantity derived from the old input (the shape of seeded change C08-1) *)
+Theorem update_incomplete_stale : forall (X V : Type) (D : nat -> X -> nat -> V) arrs refreshed a,
+  disjoint_layout arrs -> In a arrs -> (forall b, In b refreshed -> In b arrs /\ b <> a) ->
+  forall (env : nat -> X) (x : X) (st0 : nat -> V) s, covers a s = true ->
+  update D refreshed x (init D arrs env st0) s = D (aid a) (env (src a)) (s - ofs a).
+Proof. exact update_incomplete_stale_l. Qed.
+Print Assumptions update_incomplete_stale.
+
+(* ---- formats (Formats.v) ---- *)
+
+(* COO -> CSR (scipy coo_tocsr: stable counting sort by row) and COO -> CSC (the same on the
+   transposed coordinates) denote the matrix the COO triples denote (duplicates summed), for every
+   triple list inside the M x N shape and every coordinate q; no law of the addition is used.
+   NOT PROVED (full format_irrelevant): BSR (block gathering of a CSR matrix) and the step from the
+   multi-level banded data array to COO through C15's nonzero_spec (C08's core_triples re-states that
+   enumeration; the two are tied exactly on every run but not linked by a lemma). *)
+Theorem format_irrelevant_partial : forall (V : Type) (vzero : V) (vadd : V -> V -> V) M N
+    (T : list ((Z * Z) * V)) q,
+  (forall t, In t T -> (0 <= fst (fst t) < Z.of_nat M)%Z /\ (0 <= snd (fst t) < Z.of_nat N)%Z) ->
+  den vzero vadd (csr_triples V (coo_tocsr V M T)) q = den vzero vadd T q /\
+  den vzero vadd (csc_triples V (coo_tocsc V N T)) q = den vzero vadd T q.
+Proof. exact format_irrelevant_partial_l. Qed.
+Print Assumptions format_irrelevant_partial.
+
+(* sum_duplicates inside a compressed row keeps the sum stored for every column (associativity of
+   the addition is the only law used) and leaves strictly increasing columns, i.e. one stored
+   entry per coordinate *)
+Theorem sum_duplicates_same : forall (V : Type) (vzero : V) (vadd : V -> V -> V),
+  (forall a b c, vadd (vadd a b) c = vadd a (vadd b c)) ->
+  forall (l : list (Z * V)) j,
+  row_den V vzero vadd (canon_row V vadd l) j = row_den V vzero vadd l j.
+Proof. exact sum_duplicates_same_l. Qed.
+Print Assumptions sum_duplicates_same.
+
+Theorem sum_duplicates_canonical : forall (V : Type) (vadd : V -> V -> V) (l : list (Z * V)),
+  strictly_sorted V (canon_row V vadd l).
+Proof. exact canon_row_sorted_l. Qed.
+Print Assumptions sum_duplicates_canonical.
